@@ -218,10 +218,12 @@ impl BackupImport {
         // Device folder
         let device_folder = folder_entity.find_device_folder(account_id)?;
         let device_folder = if let Some(device_folder) = device_folder {
+            // Device events are stored per account
+            // not in the events of the device folder
             let device_events = event_entity.load_events(
-                EventLogType::Identity,
+                EventLogType::Device,
                 account_id,
-                Some(device_folder.row_id),
+                None,
             )?;
             let device_secrets =
                 folder_entity.load_secrets(device_folder.row_id)?;
@@ -313,7 +315,7 @@ impl BackupImport {
             folder_entity
                 .insert_folder_secrets(device_folder_id, device_secrets)?;
             event_entity
-                .insert_device_events(device_folder_id, device_events)?;
+                .insert_device_events(account_id, device_events)?;
             account_entity
                 .insert_device_folder(account_id, device_folder_id)?;
         }
